@@ -351,6 +351,9 @@ def main():
         }
         edir = os.environ.get('VERIF_EVIDENCE_DIR', os.path.join(VERIF, 'evidence')); os.makedirs(edir, exist_ok=True)
         json.dump(ev, open(os.path.join(edir, pid + '.json'), 'w'), indent=1)
+        if not only and '--cfg' not in args:      # the complete list of functions executed symbolically (input of apicov.py)
+            os.makedirs(os.path.join(edir, 'functions'), exist_ok=True)
+            open(os.path.join(edir, 'functions', '%s.%s.txt' % (pid, tier)), 'w').write('\n'.join(sorted(set(f for q in main_q for f in q['functions']))) + '\n')
         print('%s %s: %d queries (%d decided), %d violations, %d known findings, %d inconclusive, %d validation runs, %.1fs' % (pid, tier, len(main_q), ev['coverage']['queries_decided'], len(violations), len(known_hits), len(inconclusive), val_runs, time.time() - t0))
         return rc_final
     finally:
